@@ -96,15 +96,13 @@ class LeafNode(TreeNode):
 
     def __lt__(self, other):
         if isinstance(other, LeafNode):
-            try:
-                return self.object < other.object
-            except TypeError:
-                return str(self.object) < str(other.object)
-        else:
-            try:
-                return self.object < other
-            except TypeError:
-                return str(self.object) < str(other)
+            other = other.object
+        try:
+            return self.object < other
+        except TypeError:
+            # Objects of types that cannot be compared (e.g., 12 and "2") are ordered by type first, so that the order
+            # is consistent with the natural order among objects that can be compared:
+            return (type(self.object).__name__, str(self.object)) < (type(other).__name__, str(other))
 
     def __eq__(self, other):
         if isinstance(other, LeafNode):
